@@ -802,12 +802,19 @@ def check_conjunction(r, prefix, body, expected, where=None):
     """`body` returns a bool that is exactly the conjunction of the expected atoms (canonical strings).
     necessary: forcing one atom false makes the result false; sufficient: all true makes it true;
     no other comparison atom is necessary."""
-    atoms = cmp_atoms(body)
+    # each comparison in the polarity in which it is one of the expected atoms, if there is one (`!(a < b)` is the atom `b <= a`)
+    atoms = pick_atoms(body, lambda c: c in expected)
     by_canon = {}
     for e, c, bi in atoms:
         by_canon.setdefault(c, []).append(e)
     where = where or "%s:%s" % (body.file, body.line)
     ok_all = True
+    if getattr(body, "sig_output", "bool") not in ("bool", "") and not all(c in by_canon for c in expected):
+        pass
+    if getattr(body, "sig_output", "bool") not in ("bool", ""):
+        if all(c in by_canon for c in expected):
+            r.undecided("%s/shape" % prefix, "the atoms %s are all evaluated, but the predicate does not return a bool (returns %s): conjunction not decided" % (list(expected), body.sig_output), where)
+            return True
     for c in expected:
         if c not in by_canon:
             r.violation("%s/missing:%s" % (prefix, c), "the condition %s is not evaluated (found: %s)" % (c, sorted(by_canon)), where)
@@ -908,6 +915,32 @@ def writes_in(body):
         if s["k"] == "assign" and s["place"]["p"] and not s["exp"]:
             out.append((bi, si, body.rec_place(s["place"], bi, si), body.rec_rvalue(s["rv"], bi, si)))
     return out
+
+
+def effect_sites(prog, body, *suffixes):
+    """blocks of `body` where a call to one of `suffixes` takes effect: the call itself, or a call that is handed a closure (built in `body`)
+    whose code — transitively — makes it (`iter.for_each(|x| f(x))` performs f at the for_each).  Returns [(bb, 'direct'|'closure', closure body|None)]"""
+    out = [(bi, "direct", None) for bi, t in calls_to(body, *suffixes)]
+    for c in prog.closures_of(body):
+        inner = [x for n in prog.all_nested(c) for x in calls_to(n, *suffixes)]
+        if not inner:
+            continue
+        for bi, t in body.calls():
+            e = body.rec_call(t, bi)
+            if e[0] == "call" and any(isinstance(a, tuple) and mir.strip(a)[0] == "closure" and mir.strip(a)[1] == c.nname for a in e[2]):
+                out.append((bi, "closure", c))
+    return out
+
+
+def strip_unwrap(e):
+    """drop `?`, unwrap() and expect() everywhere in an expression: the success payload is the same value however the failure is handled"""
+    if not isinstance(e, tuple):
+        return e
+    if e and e[0] in ("try", "mutated") and len(e) == 2:
+        return strip_unwrap(e[1])
+    if e and e[0] == "call" and e[2] and e[1].split("::")[-1] in ("unwrap", "expect") and ("Option" in e[1] or "Result" in e[1]):
+        return strip_unwrap(e[2][0])
+    return tuple(strip_unwrap(x) if isinstance(x, tuple) else x for x in e)
 
 
 def raw_root(body, op, depth=0):
